@@ -556,3 +556,34 @@ VF_EXPORT void vf_pairing_sum(void* o, size_t na, const void* g1s, const void* g
     free(ap);
     free(pp);
 }
+
+// ---------------------------------------------------------------------------------------
+// C++ counterparts of C API functions that have no table entry (for the C19 differential)
+// ---------------------------------------------------------------------------------------
+VF_EXPORT void vf_encode_cpp(int g, int compressed, void* buf, const void* affine) {
+    if (g == 1) {
+        if (compressed) ((Encoding<G1Affine, true>*) buf)->encode(*(const G1Affine*) affine);
+        else ((Encoding<G1Affine, false>*) buf)->encode(*(const G1Affine*) affine);
+    } else {
+        if (compressed) ((Encoding<G2Affine, true>*) buf)->encode(*(const G2Affine*) affine);
+        else ((Encoding<G2Affine, false>*) buf)->encode(*(const G2Affine*) affine);
+    }
+}
+VF_EXPORT long vf_decode_cpp(int g, int compressed, int checked, void* affine, const void* buf) {
+    if (g == 1) {
+        if (compressed) return ((const Encoding<G1Affine, true>*) buf)->decode(*(G1Affine*) affine, checked != 0);
+        return ((const Encoding<G1Affine, false>*) buf)->decode(*(G1Affine*) affine, checked != 0);
+    }
+    if (compressed) return ((const Encoding<G2Affine, true>*) buf)->decode(*(G2Affine*) affine, checked != 0);
+    return ((const Encoding<G2Affine, false>*) buf)->decode(*(G2Affine*) affine, checked != 0);
+}
+VF_EXPORT void vf_from_hash_cpp(int g, void* affine, const void* hash) {
+    if (g == 1) ((G1Affine*) affine)->from_hash((const uint8_t*) hash);
+    else ((G2Affine*) affine)->from_hash((const uint8_t*) hash);
+}
+VF_EXPORT void vf_zp_from_hash_cpp(void* out, const void* hash) {
+    Fr* r = (Fr*) out;
+    r->val.read_big_endian((const uint8_t*) hash);
+    r->hash_reduce();
+}
+VF_EXPORT long vf_g2prepared_is_zero_cpp(const void* p) { return ((const G2Prepared*) p)->is_zero(); }
